@@ -4,9 +4,10 @@
   `formats/gltf/writer.go` AddMesh:
     * `model.Mesh.PrimitiveCount()` is the first thing called on a non-nil mesh; for a `modeling.Topology` value beyond
       the six declared ones it PANICS (`unimplemented topology`), before anything is written for that model;
-    * quad (2), line (3), line-strip (4) and line-loop (5) meshes are ACCEPTED and written exactly like a triangle mesh:
-      `mode` is only set for `PointTopology` (→ 0 POINTS), every other topology leaves it nil, i.e. the glTF default
-      4 TRIANGLES.  Nothing is rejected.
+    * (since the fix "gltf writer sets the primitive mode of line meshes and rejects quad meshes") a QUAD mesh is rejected
+      with ErrInvalidInput right after the nil-mesh check — before PrimitiveCount, also when it has no primitives —;
+      point / line / line-loop / line-strip meshes are written with mode 0 / 1 / 2 / 3 (`modeOfTopo`), triangles without a
+      mode.  (Before the fix every non-point mesh was written without a mode, i.e. as TRIANGLES.)
   AddMaterial: `PolyformNormal{}` / `PolyformOcclusion{}` literals whose embedded `*PolyformTexture` is nil reach
   `w.AddTexture(nil)` → `polyTex.prepareExtensions` dereferences nil: PANIC — after the tracker lookup, the PBR textures,
   the extensions and the alphaCutoff check, exactly where the base model `addMaterial` returns `.error .badId` for a
@@ -45,7 +46,10 @@ def liftOutcome : Except Err W → Outcome
     AddMesh after the nil-mesh check) -/
 def addModelT (s : Scene) (w : W) (md : Model) : Outcome :=
   match s.meshOf md with
-  | some m => if m.topoKnown then liftOutcome (addModel s w md) else .panic
+  | some m =>
+    if !m.topoKnown then .panic
+    else if m.topo = 2 then .err .quad      -- QuadTopology: ErrInvalidInput right after the nil-mesh check, nothing written
+    else liftOutcome (addModel s w md)
   | none => liftOutcome (addModel s w md)
 
 def addModelsT (s : Scene) : W → List Model → Outcome
@@ -98,6 +102,10 @@ def modeCountOK (mode : Option Nat) (n : Nat) : Bool :=
   | some 2 | some 3 => decide (n ≥ 2)
   | some 5 | some 6 => decide (n ≥ 3)
   | _ => false
+
+/-- the mesh's own index count fits its topology's drawing mode (a well-formedness condition on the INPUT: a triangle mesh
+    with 3k indices, a line mesh with 2k, a line loop / strip with at least 2) -/
+def PMesh.indexCountFits (m : PMesh) : Bool := modeCountOK (modeOfTopo m.topo) m.indices.length
 
 /-- the heap mesh of model `md` and the single primitive of the glTF mesh its node references -/
 def nodePrim (s : Scene) (d : Doc) (md : Model) (n : GNode) : Option (PMesh × Prim) :=
